@@ -470,7 +470,10 @@ impl Runner {
                 let (Some(id), Some(k)) = (num(id), num(k)) else { return self.emit("bad-op") };
                 let p = self.chunk_path(id);
                 if let Ok(f) = std::fs::OpenOptions::new().write(true).open(&p) {
-                    let _ = f.set_len(k);
+                    // a cut only shortens
+                    if f.metadata().map(|m| m.len() > k).unwrap_or(false) {
+                        let _ = f.set_len(k);
+                    }
                 }
                 let mut st = gate::g().m.lock().unwrap();
                 if let Some(f) = st.files.get_mut(&id) {
@@ -491,6 +494,22 @@ impl Runner {
                     if let Some(f) = st.files.get_mut(&id) {
                         f.len = data.len() as u64;
                         f.durable = f.durable.min(b);
+                    }
+                }
+            }
+            ["flip", id, pos, mask] => {
+                let (Some(id), Some(pos), Some(mask)) = (num(id), num(pos), num(mask)) else {
+                    return self.emit("bad-op");
+                };
+                let p = self.chunk_path(id);
+                if let Ok(mut data) = std::fs::read(&p) {
+                    if (pos as usize) < data.len() {
+                        data[pos as usize] ^= mask as u8;
+                        // in place, so that handles held by a live store see it
+                        use std::os::unix::fs::FileExt;
+                        if let Ok(f) = std::fs::OpenOptions::new().write(true).open(&p) {
+                            let _ = f.write_all_at(&data[pos as usize..pos as usize + 1], pos);
+                        }
                     }
                 }
             }
@@ -561,6 +580,7 @@ impl Runner {
                 let _ = self.out.flush();
                 return;
             }
+            "note" => return,
             "cfg" => {
                 self.cfg = mk_cfg(&self.dir, &toks[1..]);
                 return;
@@ -626,6 +646,9 @@ impl Runner {
                 self.ret_seg(r);
             }
             ["flush", cb] => {
+                if self.store.is_none() {
+                    return self.emit("ret err notFound");
+                }
                 let cb = if *cb == "-" {
                     None
                 } else {
@@ -656,7 +679,7 @@ impl Runner {
                     Outcome::Ok
                 };
                 if self.store.is_none() {
-                    return;
+                    return self.emit("wst none");
                 }
                 let _ = gate::release(out);
                 let s = self.settle();
@@ -664,7 +687,7 @@ impl Runner {
             }
             ["wack", cb] => {
                 if self.store.is_none() {
-                    return;
+                    return self.emit("wst none");
                 }
                 let pat1 = format!("ev cb {} ", cb);
                 let pat2 = format!("ev cbdrop {}", cb);
@@ -687,7 +710,7 @@ impl Runner {
             }
             ["widle"] => {
                 if self.store.is_none() {
-                    return;
+                    return self.emit("wst none");
                 }
                 let mut n = 0;
                 let mut s = self.settle();
@@ -722,6 +745,8 @@ impl Runner {
                         self.emit("dropped");
                     }
                     gate::set_mode(Mode::Gated);
+                } else {
+                    self.emit("dropped none");
                 }
             }
             ["st"] => {
